@@ -509,6 +509,11 @@ def record_cli(case, scratch_dir):
             seen = {"residues": [], "out": []}
     atoms, res, rid, aid, xyz = _record_struct(seen["residues"])
     rname, aname = _names_of(seen["residues"])
+    if 0 in rname.values() or 0 in aname.values():
+        # printed residue / atom names do not identify the atoms of this input uniquely: the
+        # report cannot be mapped back to atoms, so the input is unusable for the CLI clauses
+        os.remove(path)
+        return []
     try:
         lib_list = _project_list(seen["out"], rid, aid)
     except Exception:
